@@ -52,7 +52,9 @@ func VrfC18Metrics() {
 			mbyp[vrfP[1]] = nw
 		}
 	})
-	switch vrf_choice("call", 11) {
+	switch vrf_choice("call", 12) {
+	case 11:
+		st.Distribution("ping", vrfP[0])
 	case 0:
 		st.Add(vrfMetric(vrf_choice("peer", 2), vrf_nondet_bool("valid")))
 	case 1:
